@@ -53,6 +53,7 @@ func verifAuthenticate(stream []byte, priv glow.PrivateKey) {
 // staticServerSync returns without panicking. Verify is uninterpreted, so a
 // rogue authorized server that signs arbitrary replies is included.
 func verifH_C11_sync_reply_never_panics() {
+	verifEnableModel("glow_Verify")
 	c := verifSyncClient()
 	stream := verifBytesBig("stream", verifTier(2+816, 2+1024))
 	gcasKey, gcasPriv := verifKeyPair("server")
@@ -109,6 +110,7 @@ func verifMuFree(c *Client) bool {
 }
 
 func verifH_C11_sync_round() {
+	verifEnableModel("Client_staticServerSync")
 	c := verifSyncClient()
 	c.staticHistoryOffset = 0
 	k1, _ := verifKeyPair("srv1")
